@@ -17,7 +17,7 @@ structure OrdOK (S : Val → Prop) : Prop where
 theorem mergeRuns_spec {S : Val → Prop} (H : OrdOK S) :
     ∀ (n : Nat) (l r : List Val), l.length + r.length ≤ n →
       (∀ x ∈ l, S x) → (∀ x ∈ r, S x) → l.Pairwise OLe → r.Pairwise OLe →
-      ∃ out, mergeRuns n l r = some out ∧ out.Perm (l ++ r) ∧ out.Pairwise OLe := by
+      ∃ out, mergeRuns n l r = .ok out ∧ out.Perm (l ++ r) ∧ out.Pairwise OLe := by
   intro n
   induction n with
   | zero =>
@@ -85,7 +85,7 @@ theorem mergeRuns_spec {S : Val → Prop} (H : OrdOK S) :
 
 theorem mergeSortFuel_spec {S : Val → Prop} (H : OrdOK S) :
     ∀ (n : Nat) (l : List Val), l.length ≤ n → (∀ x ∈ l, S x) →
-      ∃ out, mergeSortFuel n l = some out ∧ out.Perm l ∧ out.Pairwise OLe := by
+      ∃ out, mergeSortFuel n l = .ok out ∧ out.Perm l ∧ out.Pairwise OLe := by
   intro n
   induction n with
   | zero =>
